@@ -1,3 +1,3 @@
 SPECIFICATION Spec
-INVARIANTS Conforms
+INVARIANTS Conforms FullProbe
 CHECK_DEADLOCK FALSE
